@@ -518,6 +518,33 @@ func (m *monC17) Wire(f *Flow, c *Conn, p *WirePkt) {
 	}
 }
 
+func (m *monC17) Final(f *Flow) {
+	w := f.W
+	if f.AdoptFatal != nil && strings.Contains(f.AdoptFatal.Error(), "Max is less than") && len(f.Damage) == 0 {
+		// legitimate only when the pending transfers really exceed the
+		// effective maximum (negative and oversized values mean 16,384)
+		var pending [3]int
+		for _, pb := range f.Pubs {
+			if pb.Resumed || (len(f.Stops) > 0 && f.Stops[len(f.Stops)-1].Upper[pb.Idx]) {
+				pending[pb.QoS]++
+			}
+		}
+		if pending[1] <= effMax(f.O.ALOMax) && pending[2] <= effMax(f.O.EOMax) {
+			w.Violate("C17", "adopt-refuses-within-maximum", fmt.Sprintf("alo%d-eo%d", sign(f.O.ALOMax), sign(f.O.EOMax)), "AdoptSession failed with %q although %d and %d pending transfers are within the effective maxima %d and %d (configured %d and %d)", f.AdoptFatal, pending[1], pending[2], effMax(f.O.ALOMax), effMax(f.O.EOMax), f.O.ALOMax, f.O.EOMax)
+		}
+	}
+}
+
+func sign(v int) int {
+	switch {
+	case v < 0:
+		return -1
+	case v > 0x3fff:
+		return 2
+	}
+	return 1
+}
+
 func effMax(v int) int {
 	if v < 0 || v > 0x3fff {
 		return 0x4000
